@@ -26,7 +26,23 @@ def anchors():
         here = os.path.dirname(os.path.dirname(os.path.abspath(__file__)))
         words = set()
         import tokenize
-        for p in glob.glob(os.path.join(here, 'rules', '*.py')):
+        # the rule file of the property being decided and the rule files it imports: a word in some other property's rules
+        # (a dict key 'fail' in C15) must not decide how C17 sees a helper called fail()
+        pid = os.environ.get('VERIF_INLINE', '')
+        files = []
+        todo = [os.path.join(here, 'rules', pid + '.py')] if re.match(r'^C\d\d$', pid) else glob.glob(os.path.join(here, 'rules', '*.py'))
+        while todo:
+            p = todo.pop()
+            if p in files or not os.path.exists(p):
+                continue
+            files.append(p)
+            # the property's own file: every import; a file it imports from: only the module-level imports (what a shared helper
+            # such as rules.C05.load can depend on), not the imports inside that property's run()
+            own = len(files) == 1
+            for m in re.finditer((r'^\s*' if own else r'^') + r'(?:from rules(?:\.(C\d\d))? import ([^\n]+)|import rules\.(C\d\d))', open(p).read(), re.M):
+                for name in ([m.group(1)] if m.group(1) else []) + ([m.group(3)] if m.group(3) else []) + re.findall(r'\bC\d\d\b', m.group(2) or ''):
+                    todo.append(os.path.join(here, 'rules', name + '.py'))
+        for p in files:
             # identifiers of the rule code and of string literals that are names (no blank inside); prose - rule descriptions and
             # messages - is not a place a function is looked up by, and its words ("fail", "copy", ...) must not pin helpers
             with open(p, 'rb') as fh:
